@@ -15,6 +15,10 @@ func cacheSpecs() []Spec {
 		{Kind: KFunc, Func: "cleanupBucket", Lean: "cleanupBucket", Out: o},
 		{Kind: KExpr, Func: "expirationMap.add", Match: "expiration.IsZero()", Lean: "emAddSkip", Out: o},
 		{Kind: KExpr, Func: "expirationMap.update", Match: "newExpTime.IsZero()", Lean: "emUpdateSkip", Out: o},
+		{Kind: KExpr, Func: "expirationMap.add", Match: "bucketNum <= m.lastCleanedBucketNum", Lean: "emAddLate", Out: o},
+		{Kind: KExpr, Func: "expirationMap.add", Match: "m.lastCleanedBucketNum + 1", Lean: "emAddNext", Out: o},
+		{Kind: KExpr, Func: "expirationMap.update", Match: "newBucketNum <= m.lastCleanedBucketNum", Lean: "emUpdateLate", Out: o},
+		{Kind: KExpr, Func: "expirationMap.update", Match: "m.lastCleanedBucketNum + 1", Lean: "emUpdateNext", Out: o},
 		{Kind: KExpr, Func: "expirationMap.cleanup", Match: "m.lastCleanedBucketNum + 1", Lean: "sweepFirst", Out: o},
 		{Kind: KExpr, Func: "expirationMap.cleanup", Match: "bucketNum <= currentBucketNum", Lean: "sweepLoopCond", Out: o},
 		{Kind: KExpr, Func: "lockedMap.DelExpired", Match: "item.expiration.IsZero() || item.expiration.After(now)", Lean: "sweepSkip", Out: o},
